@@ -442,6 +442,8 @@ fn exe() -> PathBuf {
 fn run_dir() -> PathBuf {
     let d = PathBuf::from(format!("{VERIF}/target/run/{}", std::process::id()));
     let _ = std::fs::create_dir_all(&d);
+    // children put their scratch files (unix sockets) below this directory
+    std::env::set_var("VSIM_RUN_DIR", &d);
     d
 }
 
